@@ -67,6 +67,20 @@ def theorem_names(path):
 def print_assumptions(pid, names):
     d = os.path.join(core.BUILD, 'assum')
     os.makedirs(d, exist_ok=True)
+    # cached per state of the compiled property file (it is rebuilt whenever anything below it changes)
+    vo = os.path.join(COQ, 'Properties', pid + '.vo')
+    st = os.stat(vo)
+    key = hashlib.sha256(('%s|%d|%d|%s' % (vo, st.st_size, st.st_mtime_ns, ','.join(names))).encode()).hexdigest()[:16]
+    cache = os.path.join(d, 'assum_%s_%s.json' % (pid, key))
+    if os.path.exists(cache):
+        return json.load(open(cache)), True
+    res, ok = _print_assumptions(pid, names, d)
+    if ok:
+        json.dump(res, open(cache, 'w'))
+    return res, ok
+
+
+def _print_assumptions(pid, names, d):
     p = os.path.join(d, 'Assum_%s.v' % pid)
     with open(p, 'w') as f:
         f.write('From Borno Require Import Properties.%s.\n' % pid)
